@@ -24,6 +24,8 @@
 #include <stdlib.h>
 #include <string.h>
 #include <sys/ioctl.h>
+#include <sys/utsname.h>
+#include <sys/time.h>
 #include <sys/mount.h>
 #include <sys/prctl.h>
 #include <sys/socket.h>
@@ -487,6 +489,11 @@ static void do_call(char **tok, int ntok) {
               (unsigned long long) hash_vec(argv), (unsigned long long) (is_v ? 0 : hash_vec(envp)));
     sample_sinks();
     sample_state();
+    {
+        struct timespec ts;
+        clock_gettime(CLOCK_REALTIME, &ts);
+        eb_printf("\"now\":%ld.%06ld,", (long) ts.tv_sec, ts.tv_nsec / 1000);
+    }
     eb_printf("\"argc\":%zu}\n", vec_len(argv));
     eb_flush();
 
@@ -502,6 +509,11 @@ static void do_call(char **tok, int ntok) {
               (unsigned long long) (is_v ? 0 : hash_vec(envp)));
     sample_sinks();
     sample_state();
+    {
+        struct timespec ts;
+        clock_gettime(CLOCK_REALTIME, &ts);
+        eb_printf("\"now\":%ld.%06ld,", (long) ts.tv_sec, ts.tv_nsec / 1000);
+    }
     eb_printf("\"done\":1}\n");
     eb_flush();
     cc.active = 0;
@@ -515,6 +527,133 @@ static void do_call(char **tok, int ntok) {
         free(envp);
     }
     free(path);
+}
+
+/* ---------------------------------------------------------------- independent oracle of the process state (C12) */
+static void read_status_field(int pid, const char *key, char *out, size_t cap) {
+    char p[64], line[512];
+    out[0] = 0;
+    snprintf(p, sizeof p, "/proc/%d/status", pid);
+    FILE *f = fopen(p, "r");
+    if (!f) return;
+    size_t kl = strlen(key);
+    while (fgets(line, sizeof line, f)) {
+        if (!strncmp(line, key, kl) && line[kl] == ':') {
+            char *v = line + kl + 1;
+            while (*v == '\t' || *v == ' ') v++;
+            size_t n = strlen(v);
+            while (n && (v[n - 1] == '\n')) v[--n] = 0;
+            snprintf(out, cap, "%s", v);
+            break;
+        }
+    }
+    fclose(f);
+}
+
+static void do_oracle(long id) {
+    uid_t r, e, s;
+    gid_t gr, ge, gs;
+    getresuid(&r, &e, &s);
+    getresgid(&gr, &ge, &gs);
+    eb_printf("{\"ev\":\"ORACLE\",\"id\":%ld,\"ruid\":%u,\"euid\":%u,\"suid\":%u,\"rgid\":%u,\"egid\":%u,\"sgid\":%u,", id, r, e, s, gr, ge, gs);
+    eb_printf("\"pid\":%ld,\"ppid\":%ld,\"sid\":%ld,\"ktid\":%ld,\"pthread\":%lu,", (long) syscall(SYS_getpid), (long) syscall(SYS_getppid),
+              (long) syscall(SYS_getsid, 0), (long) syscall(SYS_gettid), (unsigned long) pthread_self());
+    static char cwd[65536];
+    long cr = syscall(SYS_getcwd, cwd, sizeof cwd);
+    if (cr > 0) {
+        eb_printf("\"cwd\":\"");
+        eb_hex(cwd, strlen(cwd));
+        eb_printf("\",");
+    } else eb_printf("\"cwd_errno\":%d,", errno);
+    struct utsname un;
+    uname(&un);
+    eb_printf("\"nodename\":\"");
+    eb_hex(un.nodename, strlen(un.nodename));
+    eb_printf("\",");
+    /* stdin */
+    struct termios tio;
+    int isatty0 = ioctl(0, TCGETS, &tio) == 0;
+    int e0 = errno;
+    char lnk[4096];
+    ssize_t lr = readlink("/proc/self/fd/0", lnk, sizeof lnk - 1);
+    struct stat st0, stp;
+    int have0 = fstat(0, &st0) == 0;
+    eb_printf("\"stdin_tty\":%d,\"stdin_errno\":%d,\"stdin_open\":%d,", isatty0, isatty0 ? 0 : e0, have0);
+    if (lr > 0) {
+        lnk[lr] = 0;
+        eb_printf("\"stdin_link\":\"");
+        eb_hex(lnk, lr);
+        eb_printf("\",");
+        if (stat(lnk, &stp) == 0) eb_printf("\"stdin_path_uid\":%u,", stp.st_uid);
+    }
+    if (have0) eb_printf("\"stdin_uid\":%u,", st0.st_uid);
+    /* login chain, step 1 */
+    char lg[256];
+    int lrc = getlogin_r(lg, sizeof lg);
+    eb_printf("\"getlogin_rc\":%d,", lrc);
+    if (lrc == 0) {
+        eb_printf("\"getlogin\":\"");
+        eb_hex(lg, strlen(lg));
+        eb_printf("\",");
+    }
+    /* environment */
+    eb_printf("\"environ_null\":%d,\"environ\":[", environ == NULL);
+    size_t tot = 0;
+    for (size_t i = 0; environ && environ[i]; i++) {
+        size_t n = strlen(environ[i]);
+        tot += n;
+        if (tot > 400000) {
+            eb_printf("%s\"TRUNCATED\"", i ? "," : "");
+            break;
+        }
+        eb_printf("%s\"", i ? "," : "");
+        eb_hex(environ[i], n);
+        eb_printf("\"");
+    }
+    eb_printf("],");
+    /* cgroup file */
+    {
+        static char cg[16384];
+        int fd = open("/proc/self/cgroup", O_RDONLY);
+        ssize_t n = fd >= 0 ? read(fd, cg, sizeof cg) : -1;
+        if (fd >= 0) close(fd);
+        eb_printf("\"cgroup\":\"");
+        if (n > 0) eb_hex(cg, n);
+        eb_printf("\",");
+    }
+    /* root process name: walk up until the parent is 1 (or 0) */
+    {
+        int pid = (int) syscall(SYS_getpid);
+        char val[300];
+        char chainbuf[2048] = "";
+        const char *rp = NULL;
+        for (int depth = 0; depth < 200; depth++) {
+            read_status_field(pid, "PPid", val, sizeof val);
+            if (!val[0]) break;
+            int pp = atoi(val);
+            char nm[300];
+            read_status_field(pid, "Name", nm, sizeof nm);
+            size_t cl = strlen(chainbuf);
+            snprintf(chainbuf + cl, sizeof chainbuf - cl, "%s%d", cl ? "," : "", pid);
+            if (pp == 1 || pp == 0) {
+                static char keep[300];
+                snprintf(keep, sizeof keep, "%s", nm);
+                rp = keep;
+                break;
+            }
+            pid = pp;
+        }
+        if (rp) {
+            eb_printf("\"rpname\":\"");
+            eb_hex(rp, strlen(rp));
+            eb_printf("\",");
+        }
+        eb_printf("\"ancestry\":\"%s\",", chainbuf);
+    }
+    struct timespec ts;
+    clock_gettime(CLOCK_REALTIME, &ts);
+    eb_printf("\"now\":%ld.%06ld}\n", (long) ts.tv_sec, ts.tv_nsec / 1000);
+    eb_flush();
 }
 
 #ifdef VITRO
@@ -716,6 +855,16 @@ static void exec_line(char *line) {
             dup2(fd, 0);
             close(fd);
         } else if (!strcmp(m, "closed")) close(0);
+    } else if (!strcmp(c, "stdinfile")) {
+        char *p = decode_bytes(tok[1], NULL);
+        int fd = open(p, O_RDONLY);
+        if (fd < 0) {
+            fprintf(stderr, "vdrive: stdinfile open failed\n");
+            exit(3);
+        }
+        dup2(fd, 0);
+        close(fd);
+        free(p);
     } else if (!strcmp(c, "ctty")) {
         setup_pty();
         setsid();
@@ -783,6 +932,67 @@ static void exec_line(char *line) {
             }
         }
         free(dup);
+    } else if (!strcmp(c, "oracle")) do_oracle(atol(tok[1]));
+    else if (!strcmp(c, "uts")) {
+        char *p = decode_bytes(tok[1], NULL);
+        if (unshare(CLONE_NEWUTS) != 0 || sethostname(p, strlen(p)) != 0) {
+            fprintf(stderr, "vdrive: cannot set hostname: %s\n", strerror(errno));
+            exit(3);
+        }
+        free(p);
+    } else if (!strcmp(c, "chownstdin")) {
+        if (fchown(0, atol(tok[1]), (gid_t) -1) != 0) {
+            fprintf(stderr, "vdrive: fchown(0) failed: %s\n", strerror(errno));
+            exit(3);
+        }
+    } else if (!strcmp(c, "mkdirp")) {
+        /* mkdirp <base> <component> <count>: create and enter base/component/component/... (count levels) */
+        char *b = decode_bytes(tok[1], NULL), *cmp = decode_bytes(tok[2], NULL);
+        int n = atoi(tok[3]);
+        if (chdir(b) != 0) exit(3);
+        for (int i = 0; i < n; i++) {
+            mkdir(cmp, 0777);
+            if (chdir(cmp) != 0) {
+                fprintf(stderr, "vdrive: mkdirp chdir failed at level %d: %s\n", i, strerror(errno));
+                exit(3);
+            }
+        }
+        free(b);
+        free(cmp);
+    } else if (!strcmp(c, "rename")) {
+        char *a = decode_bytes(tok[1], NULL), *b = decode_bytes(tok[2], NULL);
+        if (rename(a, b) != 0) {
+            fprintf(stderr, "vdrive: rename failed: %s\n", strerror(errno));
+            exit(3);
+        }
+        free(a);
+        free(b);
+    } else if (!strcmp(c, "bind")) {
+        char *a = decode_bytes(tok[1], NULL), *b = decode_bytes(tok[2], NULL);
+        if (mount(a, b, NULL, MS_BIND, NULL) != 0) {
+            fprintf(stderr, "vdrive: bind %s -> %s failed: %s\n", a, b, strerror(errno));
+            exit(3);
+        }
+        free(a);
+        free(b);
+    } else if (!strcmp(c, "tmpfs")) {
+        char *a = decode_bytes(tok[1], NULL);
+        if (mount("tmpfs", a, "tmpfs", 0, NULL) != 0) {
+            fprintf(stderr, "vdrive: tmpfs on %s failed: %s\n", a, strerror(errno));
+            exit(3);
+        }
+        free(a);
+    } else if (!strcmp(c, "writefile")) {
+        size_t n;
+        char *a = decode_bytes(tok[1], NULL), *d = decode_bytes(tok[2], &n);
+        int fd = open(a, O_WRONLY | O_CREAT | O_TRUNC, 0644);
+        if (fd < 0 || write(fd, d, n) != (ssize_t) n) {
+            fprintf(stderr, "vdrive: writefile %s failed: %s\n", a, strerror(errno));
+            exit(3);
+        }
+        close(fd);
+        free(a);
+        free(d);
     } else if (!strcmp(c, "hideproc")) {
         if (mount("tmpfs", "/proc", "tmpfs", 0, NULL) != 0) {
             fprintf(stderr, "vdrive: cannot hide /proc: %s\n", strerror(errno));
